@@ -889,6 +889,16 @@ impl<'a, 'tcx> Own<'a, 'tcx> {
                 }
             }
             ty::Param(_) => self.atom("param", key, path),
+            ty::Alias(al) if matches!(al.kind, ty::Opaque { .. }) => {
+                // `impl Trait` in return position (a closure built by a helper function): what is owned is the hidden type
+                if !self.seen.insert(format!("opaque@{}@{:?}", key, al.args)) {
+                    return;
+                }
+                if let ty::Opaque { def_id } = al.kind {
+                    let hidden = tcx.type_of(def_id).instantiate(tcx, al.args).skip_norm_wip();
+                    self.walk(hidden, path, depth + 1);
+                }
+            }
             ty::Alias(..) => self.atom("alias", key, path),
             ty::RawPtr(..) | ty::Ref(..) | ty::FnPtr(..) | ty::FnDef(..) | ty::Bool | ty::Int(_) | ty::Uint(_) | ty::Char | ty::Float(_) | ty::Str | ty::Never | ty::Foreign(_) => {}
             _ => self.atom("other", key, path),
@@ -1016,8 +1026,18 @@ fn extract<'tcx>(tcx: TyCtxt<'tcx>) {
                     if let Rvalue::Cast(CastKind::PointerCoercion(ty::adjustment::PointerCoercion::Unsize, _), op, to) = &b.1 {
                         let from = op.ty(&body.local_decls, tcx);
                         if let Some((pf, pt)) = unsize_pointees(tcx, from, *to) {
-                            let pf = tcx.erase_and_anonymize_regions(pf);
+                            let mut pf = tcx.erase_and_anonymize_regions(pf);
                             let pt = tcx.erase_and_anonymize_regions(pt);
+                            // a value of an `impl Trait` return type: the entry is for the hidden type
+                            for _ in 0..4 {
+                                if let ty::Alias(al) = pf.kind() {
+                                    if let ty::Opaque { def_id } = al.kind {
+                                        pf = tcx.erase_and_anonymize_regions(tcx.type_of(def_id).instantiate(tcx, al.args).skip_norm_wip());
+                                        continue;
+                                    }
+                                }
+                                break;
+                            }
                             if matches!(pt.kind(), ty::Dynamic(..)) && !matches!(pf.kind(), ty::Dynamic(..)) {
                                 let k = cx.tys(pt);
                                 let loc = cx.loc(st.source_info.span);
@@ -1043,6 +1063,43 @@ fn extract<'tcx>(tcx: TyCtxt<'tcx>) {
                                     if src_params.iter().any(|i| !dyn_params.contains(i)) {
                                         generic_unsize_ty.push((tcx.typeck_root_def_id(did), pf, pt));
                                     }
+                                    table.push(DynEntry { pattern: pt, src: pf });
+                                    table_sites.entry(k).or_default().push(J::O(vec![
+                                        ("src", s(cx.tys(pf))),
+                                        ("in", s(cx.path(did))),
+                                        ("loc", s(loc)),
+                                    ]));
+                                }
+                            }
+                        }
+                    }
+                }
+            }
+        }
+        // `rx.boxed()` / `fut.boxed()` (futures_util): the unsizing happens inside the foreign function; what is erased is
+        // the receiver type, into the `dyn` of the returned `Pin<Box<dyn ..>>`
+        for (_bb, data) in body.basic_blocks.iter_enumerated() {
+            if let TerminatorKind::Call { func, destination, .. } = &data.terminator().kind {
+                if let ty::FnDef(cd, ga) = func.ty(&body.local_decls, tcx).kind() {
+                    let name = cx.path(*cd);
+                    if name.starts_with("futures_util::") && (name.ends_with("Ext::boxed") || name.ends_with("Ext::boxed_local")) && ga.len() >= 1 {
+                        if let Some(selfty) = ga[0].as_type() {
+                            let dest_ty = destination.ty(&body.local_decls, tcx).ty;
+                            let mut cur = dest_ty;
+                            let mut dynty = None;
+                            for _ in 0..4 {
+                                match cur.kind() {
+                                    ty::Dynamic(..) => { dynty = Some(cur); break; }
+                                    ty::Adt(_, aa) => { if let Some(n) = aa.types().next() { cur = n; } else { break; } }
+                                    _ => break,
+                                }
+                            }
+                            if let Some(pt) = dynty {
+                                let pf = tcx.erase_and_anonymize_regions(selfty);
+                                let pt = tcx.erase_and_anonymize_regions(pt);
+                                if !matches!(pf.kind(), ty::Param(_) | ty::Dynamic(..)) {
+                                    let k = cx.tys(pt);
+                                    let loc = cx.loc(data.terminator().source_info.span);
                                     table.push(DynEntry { pattern: pt, src: pf });
                                     table_sites.entry(k).or_default().push(J::O(vec![
                                         ("src", s(cx.tys(pf))),
